@@ -172,7 +172,7 @@ class ExprMixin:
     def alloc(self, st, cls, ty=None):
         """fresh object reference, distinct from every pre-existing and earlier-allocated object"""
         a = fresh_int("addr")
-        st.assume(a == st.front)
+        st.assume(a == st.front, definitional=True)
         st.front = a + 1
         st.nalloc += 1
         v = V(RefV(a), ty or cls)
@@ -455,6 +455,12 @@ class ExprMixin:
         if ta == "float" or tb == "float":
             x = Val.f(a.t) if ta == "float" else z3.ToReal(Val.i(a.t))
             y = Val.f(b.t) if tb == "float" else z3.ToReal(Val.i(b.t))
+        elif (ta is None and tb in ("int", None)) or (tb is None and ta == "int"):
+            # statically untyped operand(s): int or float decided by the dynamic tag
+            isnum = lambda v: z3.Or(Val.is_IntV(v.t), Val.is_FloatV(v.t))   # noqa
+            self.oblige(f"type-safety:number@L{lineno}", "type-safety", z3.And(isnum(a), isnum(b)), st, lineno)
+            x = z3.If(Val.is_FloatV(a.t), Val.f(a.t), z3.ToReal(Val.i(a.t)))
+            y = z3.If(Val.is_FloatV(b.t), Val.f(b.t), z3.ToReal(Val.i(b.t)))
         elif ta == "bytes" and tb == "bytes":
             raise Unsupported("bytes ordering")
         else:
